@@ -185,12 +185,24 @@ def parse_cases_output(text):
     return out
 
 
-def run_harness(exe, conf, cases, rundir, timeout=1800, args=()):
+def run_harness(exe, conf, cases, rundir, timeout=900, args=()):
     os.makedirs(rundir, exist_ok=True)
     env = {"ASAN_OPTIONS": "detect_leaks=0:abort_on_error=0:allocator_may_return_null=1",
            "UBSAN_OPTIONS": "print_stacktrace=0"}
-    p = run([exe, "--conf", conf, "--scratch", rundir] + list(args), input=cases_text(cases), env=env,
-            timeout=timeout, cwd=rundir)
+    class _P:
+        pass
+    try:
+        p = run([exe, "--conf", conf, "--scratch", rundir] + list(args), input=cases_text(cases), env=env,
+                timeout=timeout, cwd=rundir)
+    except subprocess.TimeoutExpired as te:
+        # a broken tree can make every case run into its per-case timeout: keep what was produced, the cases that
+        # did not run are reported as crashes (a verdict, not a traceback)
+        p = _P()
+        out = te.stdout or ""
+        p.stdout = out.decode(errors="replace") if isinstance(out, bytes) else out
+        p.stderr = "harness wall-clock limit of %ss reached" % timeout
+        p.returncode = -9
+        subprocess.run(["pkill", "-9", "-f", exe], capture_output=True)
     res = parse_cases_output(p.stdout)
     if p.returncode != 0 or len(res) != len(cases):
         missing = [c.id for c in cases if c.id not in res]
